@@ -25,6 +25,11 @@ impl Converter {
     }
 
     fn convert_to_field(&self, key_expression: &Expression) -> Option<String> {
+        if self.evaluator.has_side_effects(key_expression) {
+            // the key expression is dropped by the conversion: it must not do anything
+            return None;
+        }
+
         if let LuaValue::String(string) = self.evaluator.evaluate(key_expression) {
             String::from_utf8(string)
                 .ok()
